@@ -33,9 +33,26 @@ LABELS = {"MCLabels14": ["a", "b", "ab", "*", "a*", "*a", "a*b", "**", "xn--a", 
           "MCLabels6": ["a", "*", "*a", "xn--a", "", "A"],
           "MCLabels5": ["a", "*", "a*", "xn--a", ""]}
 TRLABELS = {"MCLabels14": "TrLabels14", "MCLabels12": "TrLabels12", "MCLabels8": "TrLabels8", "MCLabels6": "TrLabels6", "MCLabels5": "TrLabels5"}
-# canonical lower-case literals, used verbatim as the "plain" spelling (3 is the IPv4-mapped form of 1)
-ADDRS = {1: "10.0.0.1", 2: "fe80::1", 3: "::ffff:a00:1", 4: "10.0.0.2", 5: "2001:db8::5", 6: "192.168.1.9",
-         7: "::1"}
+# An IP address is (family, value id).  Canonical lower-case literals, used verbatim as the "plain" spelling.  The
+# value ids are shared by both families: (4, 1) / (6, 1) and (4, 7) / (6, 7) are the same INTEGER in the other
+# family, i.e. different addresses; (6, 3) is the IPv4-mapped form of 10.0.0.1 (another integer).
+ADDRS = {(4, 1): "10.0.0.1", (6, 1): "::a00:1", (6, 2): "fe80::1", (6, 3): "::ffff:a00:1", (4, 4): "10.0.0.2",
+         (6, 4): "::a00:2", (6, 5): "2001:db8::5", (4, 6): "192.168.1.9", (6, 6): "::c0a8:109", (4, 7): "0.0.0.1",
+         (6, 7): "::1"}
+AKEYS = sorted(ADDRS)
+
+
+def _check_addrs():
+    ints = {}
+    for (f, a), txt in ADDRS.items():
+        ip = ipaddress.ip_address(txt)
+        if ip.version != f or ints.setdefault(a, int(ip)) != int(ip):
+            raise tlc.MachineryError(f"address table: {txt} is not family {f} / value id {a}")
+    if len(set(ints.values())) != len(ints):
+        raise tlc.MachineryError("address table: two value ids share an integer")
+
+
+_check_addrs()
 NSHARD = 16          # number of emission / replay shards of the thorough tier (a partition, not a process count)
 
 
@@ -68,7 +85,8 @@ LIST_INVS = ["ListRefWellDefined", "ListRepairedWithinRules", "ListDeviatesOnlyA
 LIST_EXPECTED_TO_FAIL = ["ListRejectsForbidden", "ListAcceptsStrict"]
 PAIR_CLAUSES = {"none", "OutsideLiberal", "TooManyWildcards", "WildcardOutsideLeftmost", "WildcardEmptyLabel",
                 "WildcardInALabel"}
-LIST_CLAUSES = {"none", "NotAnIdentity", "DnsEntryVsIpHost", "IpEntryVsDnsHost", "IpNotByValue", "OutsideLiberal",
+LIST_CLAUSES = {"none", "NotAnIdentity", "DnsEntryVsIpHost", "IpEntryVsDnsHost", "IpNotByValue", "IpEntryOtherFamily",
+                "OutsideLiberal",
                 "TooManyWildcards", "WildcardOutsideLeftmost", "CommonNameWhenSansExist", "CommonNameNotEnabled",
                 "CommonNameVsIpHost", "NoIdentity", "CommonNameOutsideLiberal", "CommonNameTooManyWildcards",
                 "CommonNameWildcardInALabel"}
@@ -151,10 +169,14 @@ def syms_name(n):            # inverse; n == [] is "no name"
     return ".".join("".join(l) for l in n)
 
 
-def ip_text(a, sp):
-    ip = ipaddress.ip_address(ADDRS[a])
-    plain = ADDRS[a]
+def ip_text(f, a, sp):
+    ip = ipaddress.ip_address(ADDRS[(f, a)])
+    plain = ADDRS[(f, a)]
     v6 = ip.version == 6
+    if sp == "dotted":       # ::a.b.c.d, the other way to write an IPv6 address below 2**32
+        if not v6 or int(ip) >= 2 ** 32:
+            raise tlc.MachineryError(f"no dotted spelling for {plain}")
+        return "::" + str(ipaddress.IPv4Address(int(ip)))
     if sp == "plain" or (not v6 and sp in ("alt", "ossl")):
         return plain
     if sp == "alt":          # host side: exploded, upper case, leading zeros
@@ -179,7 +201,7 @@ def entry_pair(e):
         sp = e["sp"]
         if sp == "alt":
             sp = "ossl"
-        return ("IP Address", ip_text(e["a"], sp))
+        return ("IP Address", ip_text(e["f"], e["a"], sp))
     return ("email", "x@a.b")
 
 
@@ -188,14 +210,14 @@ def host_text(h):
     that this text is the literal of address h.a in spelling h.sp, and that the interpreter agrees on the value."""
     t = syms_name(h["n"])
     if h["k"] == "ip":
-        want = ip_text(h["a"], h["sp"])
-        if t != want or ipaddress.ip_address(t.strip("[]").split("%")[0]) != ipaddress.ip_address(ADDRS[h["a"]]):
-            raise tlc.MachineryError(f"ip host text {t!r} is not address {h['a']} spelled {h['sp']} ({want!r})")
+        want = ip_text(h["f"], h["a"], h["sp"])
+        if t != want or ipaddress.ip_address(t.strip("[]").split("%")[0]) != ipaddress.ip_address(ADDRS[(h["f"], h["a"])]):
+            raise tlc.MachineryError(f"ip host text {t!r} is not address {(h['f'], h['a'])} spelled {h['sp']} ({want!r})")
     return t
 
 
-def ip_host(a, sp):
-    return {"k": "ip", "n": name_syms(ip_text(a, sp)), "a": a, "sp": sp}
+def ip_host(f, a, sp):
+    return {"k": "ip", "n": name_syms(ip_text(f, a, sp)), "f": f, "a": a, "sp": sp}
 
 
 def make_cert(entries, cn):
@@ -419,16 +441,17 @@ def _rand_list_shard(args):
         for _ in range(k):
             t = rng.random()
             if t < 0.6:
-                e = {"t": "DNS", "n": _rand_name(rng, ls, 4), "a": 0, "sp": "-"}
+                e = {"t": "DNS", "n": _rand_name(rng, ls, 4), "f": 0, "a": 0, "sp": "-"}
             elif t < 0.7:           # a dNSName whose text is (a wildcarded form of) an IP address
-                txt = ADDRS[rng.randint(1, 7)]
+                txt = ADDRS[rng.choice(AKEYS)]
                 if rng.random() < 0.5:
                     txt = "*" + (txt[txt.index("."):] if "." in txt else txt[1:])
-                e = {"t": "DNS", "n": name_syms(txt), "a": 0, "sp": "-"}
+                e = {"t": "DNS", "n": name_syms(txt), "f": 0, "a": 0, "sp": "-"}
             elif t < 0.92:
-                e = {"t": "IP", "n": [], "a": rng.randint(1, 7), "sp": rng.choice(["plain", "alt", "nl"])}
+                f, a = rng.choice(AKEYS)
+                e = {"t": "IP", "n": [], "f": f, "a": a, "sp": rng.choice(["plain", "alt", "nl"])}
             else:
-                e = {"t": "OTHER", "n": [], "a": 0, "sp": "-"}
+                e = {"t": "OTHER", "n": [], "f": 0, "a": 0, "sp": "-"}
             mine.append(e)
         entries.extend(mine)
         cn0 = len(cns)
@@ -445,15 +468,20 @@ def _rand_list_shard(args):
                     n[rng.randrange(len(n))] = list(rng.choice(ls))
                 if rng.random() < 0.3:
                     n = [[c.swapcase() if c.isalpha() and c not in "xn" else c for c in l] for l in n]
-                h = {"k": "dns", "n": n, "a": 0, "sp": "-"}
+                h = {"k": "dns", "n": n, "f": 0, "a": 0, "sp": "-"}
             elif t < 0.6:
                 n = cns[cn0] if rng.random() < 0.7 else _rand_name(rng, ls, 4)
-                h = {"k": "dns", "n": n, "a": 0, "sp": "-"}
+                h = {"k": "dns", "n": n, "f": 0, "a": 0, "sp": "-"}
             else:
-                a = rng.randint(1, 7)
-                v6 = ":" in ADDRS[a]
-                h = ip_host(a, rng.choice(["plain", "alt", "zoned", "brack", "brackzoned"] if v6 else
-                                          ["plain", "plain", "brack"]))
+                ipe = [e for e in mine if e["t"] == "IP"]
+                if ipe and rng.random() < 0.5:     # the integer of an IP entry, in either family
+                    a = rng.choice(ipe)["a"]
+                    f, a = rng.choice([k for k in AKEYS if k[1] == a])
+                else:
+                    f, a = rng.choice(AKEYS)
+                sps = ["plain", "plain", "brack"] if f == 4 else ["plain", "alt", "zoned", "brack", "brackzoned"] + \
+                    (["dotted"] if (4, a) in ADDRS else [])
+                h = ip_host(f, a, rng.choice(sps))
             hosts.append(h)
             hi = len(hosts)
             for c in (0, cn0 + 1):
@@ -505,6 +533,11 @@ def check_domain(dom):
         raise tlc.MachineryError("list domain lacks a DNS entry spelled like an IP host")
     for e in esel:
         entry_pair(e)
+    fam = {(e["f"], e["a"]) for e in esel if e["t"] == "IP"}
+    if not any((10 - f, a) in {(h["f"], h["a"]) for h in hsel if h["k"] == "ip" and h["sp"] == sp} for f, a in fam
+               for sp in ("plain",)) or not {"dotted", "zoned", "brack"} <= {h["sp"] for h in hsel if h["k"] == "ip" and h["f"] == 6
+                                                                      and (4, h["a"]) in fam}:
+        raise tlc.MachineryError("list domain lacks an IP entry and host literals of the SAME integer in the OTHER family")
 
 
 def digests(der):
@@ -717,6 +750,10 @@ def run(rep):
                  (), None, 1, '"X", "N"'))
     s1jobs.append(("expect", "ListsSpec", "ListsSpec", small_list_plan, ["ListAcceptsStrict"], (), None, 1, '"*", "*"'))
     s1jobs.append(("expect", "ListsSpec", "ListsSpec", small_list_plan, ["ListRejectsForbidden"], (), None, 1, None))
+    # a deviation the code must NOT have: comparing the integers of the addresses instead of the packed octets
+    # accepts an entry of the other family; TLC shows it leaves RULES, the replay refutes it on the real code
+    s1jobs.append(("expect", "ListsSpec (IpComparedAsInteger)", "ListsSpec", dict(small_list_plan, kd="OnlyIpInt"),
+                   ["ListRejectsForbidden"], (), None, 1, '"IP"'))
 
     # which of the recorded deviations does this tree still have?  The emitted MATCHER predictions follow it (so a
     # fix: commit leaves no drift); the verdicts never depend on it.
@@ -781,7 +818,7 @@ def run(rep):
         for kind, name, plan, r in [f.result() for f in s1]:
             if kind == "expect":
                 rep.extra.setdefault("stage1_expected_counterexamples", []).append(
-                    f"{r.violated[0]} fails in {name} with KnownDefects = the recorded deviations (as recorded)")
+                    f"{r.violated[0]} fails in {name} with KnownDefects = {plan.get('kd', 'AllDefects')} (as expected)")
                 continue
             rep.add_tlc(f"{name} {plan}", r)
             if r.violated:
@@ -859,8 +896,8 @@ def replay(rep, path):
     if case["kind"] == "pair":
         acc = pair_accepts(case["via"], case["dn"], case["host"])
         ml = max(len(case["dn"].split(".")), len(case["host"].split(".")))
-        doc = {"entries": [{"t": "DNS", "n": name_syms(case["dn"]), "a": 0, "sp": "-"}],
-               "hosts": [{"k": "dns", "n": name_syms(case["host"]), "a": 0, "sp": "-"}],
+        doc = {"entries": [{"t": "DNS", "n": name_syms(case["dn"]), "f": 0, "a": 0, "sp": "-"}],
+               "hosts": [{"k": "dns", "n": name_syms(case["host"]), "f": 0, "a": 0, "sp": "-"}],
                "cns": [name_syms(case["dn"])],
                "traces": [{"kind": "list", "san": [] if case["via"] == "cn" else [1],
                            "cases": [[1, 1 if case["via"] == "cn" else 0, case["via"] == "cn",
